@@ -115,6 +115,24 @@ fn lib_roundtrip(basis: &[u8], source: &[u8], bs: usize, legal: bool) -> Result<
     if out2 != source {
         return Err(("roundtrip", "async patch output != source".into()));
     }
+    // the basis is addressed absolutely: a reader that was already used (the same handle that produced the
+    // signature is at its end; a caller that peeked is at 1) must give the same result
+    for start in [basis.len() as u64, 1u64.min(basis.len() as u64)] {
+        let mut c = Cursor::new(basis);
+        c.set_position(start);
+        let mut o: Vec<u8> = Vec::with_capacity(source.len());
+        sync.patch(c, &d_sync, &mut o).map_err(|e| ("roundtrip", format!("sync patch with the basis reader initially at offset {start} failed: {e}")))?;
+        if o != source {
+            return Err(("roundtrip", format!("sync patch with the basis reader initially at offset {start}: output != source")));
+        }
+        let mut c = Cursor::new(basis);
+        c.set_position(start);
+        let mut o: Vec<u8> = Vec::with_capacity(source.len());
+        block_on(asy.patch(c, &d_async, &mut o)).map_err(|e| ("roundtrip", format!("async patch with the basis reader initially at offset {start} failed: {e}")))?;
+        if o != source {
+            return Err(("roundtrip", format!("async patch with the basis reader initially at offset {start}: output != source")));
+        }
+    }
     Ok(Obs { d_sync, d_async })
 }
 
@@ -473,6 +491,15 @@ pub fn cli_case(case: &Value, seed: u64) -> Option<Violation> {
     }
     if std::fs::read(p("out.bin")).ok().as_deref() != Some(&source[..]) {
         return mk("cli_chain", "patched file != source".into());
+    }
+    // the same patch over an output path that already holds a longer file
+    w("out2.bin", &vec![0xEEu8; source.len() + basis.len() + 4097]);
+    let (c3b, e3b) = run_cli(&["patch".as_ref(), &os(&p("basis.bin")), &os(&p("s.delta")), "-o".as_ref(), &os(&p("out2.bin"))]);
+    if c3b != Some(0) {
+        return mk("cli_chain", format!("copia patch over an existing output file exit {c3b:?}: {}", e3b.trim()));
+    }
+    if std::fs::read(p("out2.bin")).ok().as_deref() != Some(&source[..]) {
+        return mk("cli_chain", "patched file != source when the output path already held a longer file".into());
     }
     // files deserialize to exactly the library values
     let sig_lib = Signature::generate(&mut &basis[..], b).ok();
